@@ -2,24 +2,32 @@
 
 Every value that crosses a boundary named by the property (variable defaults -> a new State/Context, a state -> the in-memory
 cache and back, a state -> a command that may mutate it, metadata -> caller) is produced by a deep-copying expression.  The
-obligations are decided syntactically on the real source on every run (back end "static"); deepcopy / copy_state_data /
+obligations are decided by a data-flow analysis of the real source on every run (back end "static": every value reaching the
+named sink - a return, a store to an attribute / item, an argument - is a constant, the result of a deep copier, or a local all of
+whose assignments are; locals may be renamed freely); deepcopy / copy_state_data /
 State.clone being deep is assumed (copy_state_data's per-type copies are exercised under C11).  The behaviour itself
 (mutate, then re-read) is exercised by the labelled bounded stand-in.
 """
 from pyvc.dsl import *
 
 prop("C10", static=[
-    ("contains", "liquer.state.vars_clone", "every-new-state-gets-a-deep-copy-of-the-variable-defaults", ["return deepcopy(get_vars())"]),
-    ("contains", "liquer.state.State.as_dict", "metadata-is-handed-out-as-a-deep-copy", ["return deepcopy(self.metadata)"]),
-    ("contains", "liquer.state.State.from_dict", "metadata-is-taken-in-as-a-deep-copy", ["self.metadata = deepcopy(metadata)"]),
-    ("contains", "liquer.state.State.clone", "a-clone-shares-neither-metadata-nor-data",
-     ["state = state.from_dict(self.as_dict())", "state.data = copy_state_data(self.data)"]),
-    ("contains", "liquer.cache.MemoryCache.store", "the-cache-keeps-its-own-copy", ["self.storage[state.query] = state.clone()"]),
-    ("contains", "liquer.cache.MemoryCache.get", "the-cache-hands-out-a-copy", ["return state.clone()"]),
-    ("contains", "liquer.context.Context.__init__", "a-context-starts-from-copies-of-the-defaults", ["self.vars = Vars(vars_clone())"]),
+    ("owned", "liquer.state.vars_clone", "every-new-state-gets-a-deep-copy-of-the-variable-defaults", "return"),
+    ("owned", "liquer.state.State.as_dict", "metadata-is-handed-out-as-a-deep-copy", "return"),
+    ("owned", "liquer.state.State.from_dict", "metadata-is-taken-in-as-a-deep-copy", "attr:metadata"),
+    ("owned", "liquer.state.State.clone", "a-clone-does-not-share-its-data", "attr:data"),
+    ("owned", "liquer.state.State.clone", "a-clone-does-not-share-its-metadata", "arg:from_dict:0"),
+    ("owned", "liquer.state.State.clone", "a-clone-is-a-new-object", "return"),
+    ("owned", "liquer.cache.MemoryCache.store", "the-cache-keeps-its-own-copy", "item:storage"),
+    ("owned", "liquer.cache.MemoryCache.get", "the-cache-hands-out-a-copy", "return"),
+    ("owned", "liquer.cache.MemoryCache.store_metadata", "the-cache-keeps-its-own-copy-of-the-metadata", "attr:metadata"),
+    ("owned", "liquer.cache.MemoryCache.get_metadata", "the-cache-hands-out-a-copy-of-the-metadata", "return"),
+    ("owned", "liquer.context.Context.__init__", "a-context-starts-from-copies-of-the-defaults", "attr:vars"),
     ("contains", "liquer.context.Context.evaluate", "every-evaluation-starts-from-copies-of-the-defaults", ["self.vars = Vars(vars_clone())"]),
-    ("contains", "liquer.context.Context.evaluate_action", "a-command-gets-a-clone-of-its-input-unless-volatile",
-     ["old_state = state if is_volatile else state.clone()"]),
-    ("contains", "liquer.state_types.DictStateType.copy", "dictionary-values-are-copied-in-depth", ["return deepcopy(data)"]),
-    ("contains", "liquer.state_types.copy_state_data", "copies-go-through-the-state-type", ["return t.copy(data)"]),
+    ("owned", "liquer.context.Context.evaluate_action", "a-command-gets-a-clone-of-its-input-unless-volatile", "kwcall:context:0", "is_volatile"),
+    ("owned", "liquer.state_types.copy_state_data", "copies-go-through-the-state-type", "return"),
+    ("owned", "liquer.state_types.StateType.copy", "the-default-copy-is-a-serialisation-round-trip", "return"),
+    ("owned", "liquer.state_types.DictStateType.copy", "dictionary-values-are-copied-in-depth", "return"),
+    ("owned", "liquer.state_types.JsonStateType.copy", "generic-values-are-copied-in-depth", "return"),
+    ("owned", "liquer.state_types.PickleStateType.copy", "pickled-values-are-copied-in-depth", "return"),
+    ("owned", "liquer.state_types.BytesStateType.copy", "bytes-are-copied", "return"),
 ])
